@@ -158,6 +158,35 @@ def normalization_layer(S):
     S.forall("box-corners-attain-the-bounds", o.f["_t"], lambda q: z3.Implies(z3.And(zreal(X.val.at([q[0], (0,)])) == bx[0], zreal(X.val.at([q[0], (1,)])) == bx[3], bx[0] < bx[1], bx[2] < bx[3]), z3.And(zreal(t.at([q[0], (0,)])) == -1, zreal(t.at([q[0], (1,)])) == 1)))
 
 
+@scenario("C08", [M + "model.NormalizationLayer.forward", MODEL + "._fix_points_order"], configs=["input-in-domain-order", "input-in-other-order"], bounded=BOUND)
+def normalization_layer_is_a_function_of_the_named_variables(S):
+    """NormalizationLayer over a domain in the space x:2 * t:1, called directly with the variables in either order:
+    the result lies in the layer's output space (= the domain's space, in ITS order) and the coordinates BY NAME are
+    (v - centre) / half-width of the box of the same variable -- the same named data gives the same named result."""
+    xt, tx, _u = spaces(S)
+    dom = abstract_domain(S, "D", xt)
+    dom.strict_box = True
+    layer = S.new(M + "model.NormalizationLayer", dom.obj)
+    bx, _ = dom.box
+    N = S.int("N", 1)
+    X, T = S.tensor("X", [N, 2]), S.tensor("T", [N, 1])
+    from tpv import tshape
+    from tpv.absdom import coords_of
+
+    other = S.cfg == "input-in-other-order"
+    data = Tensor(tshape.cat(S.I, [T.val, X.val] if other else [X.val, T.val], 1))
+    o = S.method(layer, "forward", S.new(POINTS, data, tx if other else xt))
+    S.ensure("result-lies-in-the-domain-space-in-its-own-order", list(S.getattr(o, "space").native.keys()) == ["x", "t"])
+    co = coords_of(S.I, o)
+    ok = set(co) == {"x", "t"} and co["x"].rank == 2 and co["x"].shape[1].concrete() == 2 and co["t"].rank == 2
+    S.ensure("coordinates-by-name-have-their-dimensions", ok)
+    if not ok:
+        return
+    norm = lambda v, i: (v - (bx[2 * i + 1] + bx[2 * i]) / 2) * (2 / (bx[2 * i + 1] - bx[2 * i]))
+    S.forall("x-is-normalised-with-the-box-of-x", Tensor(co["x"]), lambda q: zreal(co["x"].at(q)) == core.select_comp(q[1][0], 2, [(lambda c=c: norm(zreal(X.val.at([q[0], (c,)])), c)) for c in range(2)]))
+    S.forall("t-is-normalised-with-the-box-of-t", Tensor(co["t"]), lambda q: zreal(co["t"].at(q)) == norm(zreal(T.val.at([q[0], ()])), 2))
+
+
 @scenario("C08", [MODEL + "._fix_points_order", NETS["FCN"][0] + ".forward"], configs=["FCN"], bounded=BOUND + "; three variables x:2, t:1, k:1 and a history of calls on ONE model instance")
 def output_is_independent_of_the_order_used_in_earlier_calls(S):
     """post: the same instance evaluated on the same data presented as (t,k,x), then (k,x,t), then (x,t,k) gives
